@@ -362,6 +362,23 @@ def r4(db, rep):
             b = [x["name"] for x in walk(n["b"]) if x.get("k") == "Field"]
             if a == ["p_memsz"] and b == ["p_filesz"]:
                 fill = True
+    # placement: the address handed to set_memory is built from the segment's virtual address (p_vaddr), not from the physical
+    # address or any other header field (kernel/firmware images have p_paddr != p_vaddr)
+    u = Units(hb)
+    placed = []
+    for x in walk(hb["body"]):
+        sk = sink_args(x)
+        if sk and sk[0] == "set_memory":
+            for role, e in sk[1]:
+                if role == "address":
+                    placed.append(sorted(u.count(e)[0]) + sorted(
+                        {y["name"] for y in walk(e) if y.get("k") == "Field" and y["name"].startswith("p_")} - {"p_vaddr"}))
+    rep.anchor(bool(placed), "set_memory call with an address argument in Elf::memory")
+    if any(not pl for pl in placed):
+        r.open("memory|placement", db.where(hb), "origin of the placement address not resolved")
+    else:
+        r.decide(all(pl == ["p_vaddr"] for pl in placed), "memory|placement", db.where(hb),
+                 "segment must be placed at p_vaddr + base; the address is built from %s" % placed)
     r.decide(rng, "memory|file_range", db.where(hb), "segment bytes must be bytes[p_offset .. p_offset + p_filesz]")
     r.decide(fill, "memory|zero_fill", db.where(hb), "zero fill must be p_memsz - p_filesz bytes")
 
